@@ -225,6 +225,7 @@ def run(ctx, rep):
     from props import _depfilter
     _depfilter.run(F, rep, "C07")
     fresh_cell_for_new_names_only(F, rep)
+    every_dependency_is_captured(F, rep)
     written_registers_are_reserved(F, rep)
     supply_matching(F, rep)
     from props import C10 as _c10x
@@ -483,6 +484,39 @@ def supply_matching(F, rep, rule="C07.supply-match"):
 
 RESERVED = []
 NAMED = []
+
+
+def every_dependency_is_captured(F, rep, rule="C07.captures-complete"):
+    """make_function builds the closure's cells from the names the compiler lists; a name that is left out is resolved at run time by a search of the
+    *callers'* frames (Ctx::load_variable) - dynamic scope.  So Function::in_place_compile_for_value lists every net dependency of the function: in its
+    loop over net_dependencies() each item reaches the insertion into the set of captured names; no `continue` / filter skips one ("a primitive
+    const cannot change, load finds it by name" finds a caller's variable of that name)."""
+    g = F.fn("compiler::ast::function::Function::in_place_compile_for_value")
+    if g is None:
+        raise AnchorMissing("Function::in_place_compile_for_value")
+    nd = g.calls_to("compiler::ast::Dependencies::net_dependencies")
+    if not nd:
+        raise AnchorMissing("net_dependencies() in in_place_compile_for_value")
+    der = g.derived([c.dst["l"] for c in nd], through_call=lambda c, idx: True if 0 in idx else None)
+    heads = [c for c in g.calls() if c.matches("core::iter::traits::iterator::Iterator::next") and c.args and op_local(c.args[0]) in der]
+    ins = {c.bb for c in g.calls() if mir.short(c.callee()).endswith(("HashSet::insert", "Vec::push", "BTreeSet::insert", "HashMap::insert"))}
+    if len(heads) != 1 or not ins:
+        rep.ob(rule, "the loop that lists the captured names", "undecided", "%d loops over the dependencies, %d insertions" % (len(heads), len(ins)), g.span, fn=g.path, key=rule)
+        rep.floor(rule + " decided", 0, 1)
+        return
+    h = heads[0]
+    sw = rules.find_discr_switch(g, h.target, h.dst["l"])
+    t = g.term(sw) if sw is not None else None
+    some_t = dict(t["targets"]).get("1", t["otherwise"]) if t else None
+    skipping = some_t is not None and h.bb in g.reachable(some_t, removed_blocks=ins)
+    filtered = sorted({mir.short(c.callee()) for c in g.calls() if mir.strip_generics(c.callee()).endswith(("::filter", "::filter_map", "::skip", "::take", "::skip_while",
+                                                                                                             "::take_while", "::retain")) and c.args and op_local(c.args[0]) in der})
+    st = "violated" if (skipping or filtered) else "ok"
+    rep.ob(rule, "Function::in_place_compile_for_value lists every net dependency as a captured name", st,
+           "" if st == "ok" else ("an item of net_dependencies() can reach the next iteration without being inserted%s: the name is resolved at run time in the callers' "
+                                  "frames - a closure called after its owner returned, or from a deeper recursion of it, reads another variable of that name"
+                                  % ((" (adaptors %s)" % filtered) if filtered else "")), h.span, fn=g.path, key=rule)
+    rep.floor(rule + " decided", 1, 1)
 
 
 def expression_values_wait_in_registers(F, rep, rule="C15.parked"):
